@@ -339,6 +339,7 @@ Fixpoint eval_stmts (E : cenv) (stmts : list tstmt) (locals : list (option evalu
       | Some x => if Nat.ltb l (List.length locals) then eval_stmts E rest (update_nth locals l (fun _ => x))
                   else Panic "interpret.rs: locals[l.0] out of range"
       end
+  | TExec (RWriteSub _ _ _) :: _ => Ok SrNone     (* an element write to a value tracked in locals: no static value (fix F25) *)
   | _ :: rest => eval_stmts E rest locals
   end.
 
